@@ -1,7 +1,7 @@
 import SuccinctlyVerif.Spec.YamlRef
 import Driver.Util
 namespace SV.Drv.C14
-open SV SV.Drv SV.Yaml
+open SV SV.Drv SV.YamlRef
 
 /-! Wire format (see harness/src/c14.rs): a presentation-annotated stream is a comma-separated
 prefix-notation token list; strings are hex of their UTF-8 bytes (`-` = empty). -/
